@@ -24,6 +24,8 @@ for sid in ids:
     finally:
         subprocess.run(["git", "-C", "/repo", "reset", "-q", "--hard", "HEAD"])
         subprocess.run(["git", "-C", "/repo", "checkout", "-q", "--", "."])
+        # the runs above rewrote evidence/ and Generated/ from the MUTANT tree: put the committed (clean-tree) versions back
+        subprocess.run(["git", "-C", ROOT, "checkout", "-q", "--", "evidence", "lean/CoapVerif/Generated"])
     meta["matrix"] = matrix
     meta["caught_by"] = [k + " quick" for k, v in matrix.items() if v.startswith("VIOLATION")]
     json.dump(meta, open(os.path.join(d, "meta.json"), "w"), indent=1)
